@@ -261,6 +261,10 @@ func checkStress(c StressCase, o *vt.Obs) error {
 	}
 	o.Label("stress")
 	o.Label("backend=" + c.Backend)
+	if _, ok := raw.(*ballastStore); ok {
+		o.Label("known:leveldb-ballast")
+		o.Excluded()
+	}
 	o.Units(int(reads.Load()))
 	if c.Layers >= 2 {
 		o.NonTrivial()
